@@ -17,9 +17,9 @@ from ahrs.utils import metrics as MT
 from ahrs import filters as F
 
 U = {"generic-a": (3, 1, -2, 1), "generic-b": (1, 2, 2, -3), "half-turn": (0, 1, 2, 2), "near-identity": (10 ** 6, 1, 2, -2),
-     "identity": (1, 0, 0, 0), "near-half-turn": (1, 1000, 2000, -2000)}
+     "identity": (1, 0, 0, 0), "near-half-turn": (1, 1000, 2000, -2000), "conjugated": (3, -1, 2, -1), "mirrored": (3, 1, 2, 1)}
 ANG = {"generic-a": (0.3, -0.5, 1.2), "generic-b": (-2.0, 1.1, -0.4), "half-turn": (math.pi, 0.0, 0.0), "near-identity": (1e-7, -2e-7, 3e-7),
-       "identity": (0.0, 0.0, 0.0), "near-half-turn": (math.pi - 1e-6, 0.1, -0.2)}
+       "identity": (0.0, 0.0, 0.0), "near-half-turn": (math.pi - 1e-6, 0.1, -0.2), "conjugated": (-0.3, 0.5, -1.2), "mirrored": (0.3, 0.5, 1.2)}
 OTHER = g_unit((2, -1, 3, 1))
 
 
@@ -39,6 +39,9 @@ def amrow(c):
 def qpair(c):
     # second quaternion: a fixed generic one, except that the special classes are RELATIVE: the pair differs
     # by the class rotation (so that 'identity' = equal quaternions, 'half-turn' = orthogonal quaternions ...)
+    if c in ("conjugated", "mirrored"):
+        g = g_unit((3, 1, -2, 1))
+        return g, g * (np.array([1.0, -1.0, -1.0, -1.0]) if c == "conjugated" else np.array([1.0, 1.0, -1.0, 1.0]))
     q1 = OTHER
     q2 = np.asarray(Quaternion(OTHER).product(qrow(c)), dtype=float)
     return q1, q2 * (-1.0 if c == "generic-b" else 1.0)
@@ -76,6 +79,10 @@ def mk_quat_ops():
     for flag in ("is_identity", "is_pure"):
         ops[flag + "[S]"] = (qrow, lambda r, flag=flag: np.array(float(getattr(Quaternion(sl(r), order="S"), flag)())),
                              lambda rs, flag=flag: np.asarray(getattr(QuaternionArray(sl(stack(rs)), order="S"), flag)(), dtype=float), "exact")
+    ops["is_versor[as given]"] = (qrow, lambda r: np.array(float(Quaternion(r, versor=False).is_versor())),
+                                  lambda rs: np.asarray(QuaternionArray(stack(rs), versors=False).is_versor(), dtype=float), "exact")
+    ops["to_DCM[as given]"] = (qrow, lambda r: Quaternion(r, versor=False).to_DCM(), lambda rs: QuaternionArray(stack(rs), versors=False).to_DCM(), "exact")
+    ops["conjugate[as given]"] = (qrow, lambda r: Quaternion(r, versor=False).conjugate, lambda rs: QuaternionArray(stack(rs), versors=False).conjugate(), "exact")
     ops["rmse_matrices"] = (lambda c: (core.g_rot((2, -1, 3, 1)), core.g_rot((2, -1, 3, 1)) @ Rrow(c)), lambda r: MT.rmse_matrices(r[0], r[1]),
                             lambda rs: MT.rmse_matrices(stack([r[0] for r in rs]), stack([r[1] for r in rs])), "exact")
     for m, kw in (("shepperd", {}), ("hughes", {}), ("chiaverini", {}), ("sarabandi", {}), ("itzhack1", {"version": 1}), ("itzhack2", {"version": 2}), ("itzhack3", {"version": 3})):
@@ -172,6 +179,8 @@ def reform(row, form, op):
         return row          # angle triples have a documented range: not rescaled
     def one(x, k):
         x = np.asarray(x, dtype=float)
+        if form == "near-unit":
+            return x * (1.0 + (7e-6 if k else -8e-6))
         if form == "int-dtype":
             return np.rint(x * (100.0 if np.max(np.abs(x)) < 100 else 1.0)).astype(np.int64)
         return x * (2.5 if k else 0.3)
